@@ -579,6 +579,14 @@ def oracle(W, line, t, err, value, npval, nperr, has_np, target, changed, fresh,
     if err and err.startswith('crash:'):
         fail(f'unexpected-exception:{opname}:{err[6:]}', f'raised {info.get("exc")}')
 
+    # 1b. a read-only object never changes (only its flag may, through setflags / read_only)
+    for i in changed:
+        b4 = before[i]
+        if b4.startswith('sv/') and b4.endswith('/1') and k not in ('setro', 'setflags'):
+            now = W.show(W.objs[i])
+            if now.rsplit('/', 1)[0] != b4.rsplit('/', 1)[0]:
+                fail(f'readonly-object-changed:{opname}', f'read-only object @{i} changed from {b4} to {now}')
+                break
     # 2. representation invariant of everything touched or created
     known_oob = False
     if k in ('set', 'get') and 'idx' in info and info['a'].__class__ in (SV, SLV):
@@ -1028,8 +1036,12 @@ class Gen:
         elif kind == 'clear':
             self.do(rng.choice([f'clear @{a}', f'remneg @{a}']))
         elif kind == 'rowop':
-            # work on a row through its own handle: the array must follow
-            self.do(f'get @{a} i{rng.randrange(m)}')
+            # work on a row through its own handle: the array must follow; sometimes freeze / thaw that row only
+            k = rng.randrange(m)
+            self.do(f'get @{a} i{k}')
+            rid = self.W.ids[id(o.rows[k])]
+            if not boolean and self.alive and rng.random() < 0.4:
+                self.do(rng.choice([f'setflags @{rid}', f'setflags @{rid}', f'setro @{rid} 0']))
 
     def step_logical(self, a):
         rng = self.rng
@@ -1174,9 +1186,8 @@ class Gen:
             else:
                 self.do(f'{q} @{a}')
         elif kind == 'flags':
-            # (the flag of a single row of an array is not touched: NumPy has one flag per array)
-            if not any(o is r for x in self.W.objs if x.__class__ is SA for r in x.rows):
-                self.do(rng.choice([f'setflags @{a}', f'setro @{a} 1', f'setro @{a} 0', f'setro @{a} 0']))
+            # (also on a row object of an array: the array is then in a mixed read-only state)
+            self.do(rng.choice([f'setflags @{a}', f'setro @{a} 1', f'setro @{a} 0', f'setro @{a} 0']))
         elif kind == 'mixfrom':
             cands = self.ids((SV, SLV), lambda x: x.size == n)
             others = [rng.choice(cands) for _ in range(rng.randrange(0, 4))]
@@ -1549,6 +1560,17 @@ def grid_array(rng):
     # read-only arrays
     for mut in ('ibin add @2 Pf:1', 'ibin mul @2 @2', 'set @2 i0 Pf:1', 'set @2 s_:_:_|i1 Pf:0', 'set @2 f0,1|f1,0 Pf:7', 'clear @2', 'remneg @2'):
         cases.append(Case(['new Pf2x2:1,0,-2,3', 'setflags @2', mut, 'toarray @2'], {'kind': 'grid', 'cell': 'sa/readonly'}))
+    # mixed read-only states: one row (not the first) frozen through its handle, writes through the array / a view
+    for mut in ('ibin mul @3 Pf:2', 'ibin add @3 Pf3:1,1,1', 'ibin sub @3 @0', 'ibin truediv @3 Pf:2', 'ibin add @3 @3',
+                'ibin mul @3 Pf3x3:1,2,1,2,1,2,1,2,1', 'set @3 s_:_:_|i1 Pf:9', 'set @3 s_:_:_ Pf:0', 'set @3 f1,2 Pf3:7,7,7',
+                'set @3 m1,1,0 Pf:1', 'set @3 f0,1|f0,0 Pf:8', 'set @3 i1|i2 Pf:0', 'set @3 i0|i0 Pf:5', 'set @3 i2 Pf:1',
+                'set @3 s0:1:_|s_:_:_ Pf:4', 'clear @3', 'remneg @3'):
+        for frozen in (1, 2):
+            cases.append(Case(['new Pf3x3:1,-2,0,0,3,4,5,0,-6', f'setflags @{frozen}', mut, 'toarray @3', f'setro @{frozen} 0', mut, 'toarray @3'],
+                              {'kind': 'grid', 'cell': 'sa/readonly-mixed'}))
+    for mut in ('ibin add @4 Pf:1', 'ibin mul @4 @4', 'set @4 s_:_:_|i0 Pf:3', 'set @4 i0 Pf:1', 'clear @4', 'remneg @4', 'set @4 f0,1|f1,1 Pf:2'):
+        cases.append(Case(['new Pf3x3:1,0,2,0,3,0,4,4,0', 'setflags @0', 'get @3 f2,0', mut, 'toarray @3'],
+                          {'kind': 'grid', 'cell': 'sa/readonly-view'}))
     # rows shared between an array and its handles
     cases.append(Case(['new Pf2x3:1,0,2,0,3,0', 'get @2 i0', 'ibin add @0 Pf:1', 'toarray @2', 'get @2 f1,0', 'ibin mul @3 Pf:2', 'toarray @2',
                        'ibin sub @2 @0', 'toarray @2', 'ibin add @2 @2', 'toarray @2', 'newsa @0,@1', 'ibin sub @4 @4', 'toarray @2'],
